@@ -571,8 +571,15 @@ def run(model, rep, tier):
     ws = [w for w in ast.walk(ft.node) if isinstance(w, ast.With) and any("ExceptionWrapper" in src(i.context_expr) for i in w.items)]
     t = " ".join(src(ws[0]).split()) if ws else ""
     eg = pat.Env()
-    rep.check(bool(ws) and pat.has(ws[0], "__g = GenericRdata.from_text(...)\n__rd = from_wire(rdclass, rdtype, __g.data, 0, len(__g.data), origin)\n__rw = __rd.to_wire(origin=origin)\nif __rw != __g.data:\n    raise dns.exception.SyntaxError(...)", eg), "R-05.4", ft.qualname, where(ft, ft.node),
+    rep.check(bool(ws) and pat.has(ws[0], "__g = GenericRdata.from_text(...)", eg) and pat.has(ws[0], "__rd = from_wire(rdclass, rdtype, __g.data, 0, len(__g.data), ___o)\n__rw = __rd.to_wire(origin=___o)\nif __rw != __g.data:\n    raise dns.exception.SyntaxError(...)", eg), "R-05.4", ft.qualname, where(ft, ft.node),
               "\\# for a known type: generic parse, re-decode with the type's reader, re-encode and compare, all inside the wrapper", "generic-form handling for known types changed", stmt="generic-known")
+    # the generic form of a known type is relativized exactly like the type's own text form: not at all unless `relativize`, and then against relativize_to (else origin)
+    og = eg.get("___o", "")
+    e5 = pat.Env()
+    okk = bool(ws) and og.isidentifier() and og not in ("origin",) and pat.has(ws[0], f"{og} = None\nif relativize:\n    {og} = relativize_to if relativize_to is not None else origin", e5)
+    rep.check(okk, "R-05.4", ft.qualname, where(ft, ws[0] if ws else ft.node), "the generic payload is decoded with no origin unless `relativize`, then with relativize_to (else origin)",
+              f"the generic payload of a known type is decoded against `{og or '?'}` whatever relativize / relativize_to say: with relativize=False (or a relativize_to different from the origin) "
+              "the names of a record given in \\# syntax come out with another relativity than the same record in its ordinary text form", stmt="generic-relativity")
     gt = model.func("dns.rdata.GenericRdata.from_text")
     t = " ".join(src(gt.node).split())
     e2 = pat.Env()
@@ -622,6 +629,8 @@ def run(model, rep, tier):
 
 
 WITNESSES = [
+    {"id": "c05-generic-always-relativized", "rule": "R-05.4", "file": "dns/rdata.py", "expect": "fires",
+     "old": "                gorigin = None\n                if relativize:\n                    gorigin = relativize_to if relativize_to is not None else origin\n", "new": "                gorigin = origin\n"},
     {"id": "c05-escapify-unicode-isprintable", "rule": "R-05.2", "file": "dns/rdata.py", "expect": "fires",
      "old": "        elif ord(c) >= 0x20:\n            text += c", "new": "        elif c.isprintable():\n            text += c"},
     {"id": "c05-twin-escapify-unicode-gt", "rule": "R-05.2", "file": "dns/rdata.py", "expect": "silent",
